@@ -956,8 +956,17 @@ var onReadDeadlineResetInterval = 5 * time.Second
 // autoResetReader wraps a reader and resets the read deadline on if needed when doing large reads.
 func (c *wsConn) autoResetReader(reader io.Reader) io.Reader {
 	return &deadlineResetReader{
-		r:     reader,
-		reset: c.resetReadDeadline,
+		r: reader,
+		reset: func() {
+			c.resetReadDeadline()
+			// data trickling in is activity too: let the connection loop
+			// restart its idle timer, which otherwise closes the connection
+			// while a frame that takes longer than the timeout is being read
+			select {
+			case c.pongs <- struct{}{}:
+			default:
+			}
+		},
 
 		lastReset: time.Now(),
 	}
